@@ -145,7 +145,7 @@ class Check:
                 outs.append(_run_one(t))
         else:
             ctx = mp.get_context("spawn")
-            with ctx.Pool(jobs, initializer=_worker_init, initargs=([ROOT],), maxtasksperchild=200) as pool:
+            with ctx.Pool(jobs, initializer=_worker_init, initargs=([ROOT],), maxtasksperchild=40) as pool:
                 for o in pool.imap(_run_one, tasks, chunksize=chunksize):
                     outs.append(o)
         for inst, o in zip(instances, outs):
